@@ -3,6 +3,7 @@ package multi
 import (
 	"bufio"
 	"bytes"
+	"compress/flate"
 	"context"
 	"fmt"
 	"io"
@@ -40,6 +41,8 @@ const (
 	exCompiled          // server only: precompiled ping, then a message
 	exStack             // compressed message through the documented writer/reader stacks
 	exOwnBuf            // message through NewWriterBuffer over a buffer the session owns and reuses, DisableFlush (grows)
+	exOwnHelper         // a frame compressed through the session's own wsflate.Helper value (its own compression level)
+	exBadText           // last step only: a text message that ends inside a character; the receiver's read fails, both sides leave
 	exCipher            // client only: header by hand, payload through wsutil.CipherWriter from a buffer the session owns (capacity = a pool class) and keeps
 )
 
@@ -107,6 +110,12 @@ func makeScript(seed uint64) *script {
 		if sc.Steps[i].FromCli && sc.Steps[i].Kind == exMsg && p.intn(3) == 0 {
 			sc.Steps[i].Kind = exCipher
 		}
+		if sc.Flate && sc.Steps[i].Kind == exCompressed && p.intn(2) == 0 {
+			sc.Steps[i].Kind = exOwnHelper
+		}
+	}
+	if p.intn(5) == 0 {
+		sc.Steps = append(sc.Steps, exchange{Kind: exBadText, FromCli: p.intn(2) == 0, Text: true, Size: 3 + p.intn(40), Seed: p.next()})
 	}
 	return sc
 }
@@ -468,6 +477,10 @@ func runServer(sc *script, conn net.Conn, tr *transcript) {
 
 func (s *side) run() {
 	for i, ex := range s.sc.Steps {
+		if ex.Kind == exBadText {
+			s.badText(i, ex)
+			return
+		}
 		if ex.FromCli == s.client {
 			if !s.send(i, ex) {
 				return
@@ -511,6 +524,31 @@ func (s *side) run() {
 	}
 	_, _, err := wsutil.ReadClientData(s.conn)
 	s.tr.add("close: %v", err)
+}
+
+// badText: the sender's text message ends inside a multi-byte character; the
+// receiver's read helper must refuse it. Nobody waits for anybody afterwards.
+func (s *side) badText(i int, ex exchange) {
+	if ex.FromCli == s.client {
+		p := payloadOf(ex)
+		p = append(p, [][]byte{{0xe2, 0x82}, {0xf0, 0x9f, 0x98}, {0xc3}}[ex.Seed%3]...)
+		s.tr.add("step %d: sent a text message ending inside a character: %v", i, s.writeMsg(ws.OpText, p))
+		return
+	}
+	// (How much of the refused message comes back with the error depends on
+	// the chunking; it is not a result.)
+	_, _, err := s.readData()
+	s.tr.add("step %d recv bad text: err=%v", i, err)
+}
+
+// ownHelper is the session's own Helper value: its compression level depends
+// on the session.
+func ownHelper(sc *script) (*wsflate.Helper, int) {
+	level := []int{0, 1, 5}[sc.Seed%3]
+	return &wsflate.Helper{
+		Compressor:   func(w io.Writer) wsflate.Compressor { f, _ := flate.NewWriter(w, level); return f },
+		Decompressor: func(r io.Reader) wsflate.Decompressor { return flate.NewReader(r) },
+	}, level
 }
 
 func (s *side) writeMsg(op ws.OpCode, p []byte) error {
@@ -575,6 +613,25 @@ func (s *side) send(i int, ex exchange) bool {
 			}
 			err = ws.WriteFrame(s.conn, f)
 		}
+	case exOwnHelper:
+		h, level := ownHelper(s.sc)
+		var f ws.Frame
+		f, err = h.CompressFrame(ws.NewFrame(opOf(ex), true, p))
+		if err == nil {
+			// What a compressor of that level emits for these calls.
+			var ref bytes.Buffer
+			rw := wsflate.NewWriter(&ref, h.Compressor)
+			rw.Write(p)
+			rw.Flush()
+			rw.Close()
+			if !bytes.Equal(f.Payload, ref.Bytes()) {
+				s.tr.add("step %d: the session's own Helper (level %d) produced %d bytes, its compressor emits %d", i, level, len(f.Payload), ref.Len())
+			}
+			if s.client {
+				f = ws.MaskFrameInPlace(f)
+			}
+			err = ws.WriteFrame(s.conn, f)
+		}
 	case exCipher:
 		// The payload lives in a buffer of the session whose capacity happens
 		// to be one of the pool's size classes; the session keeps it.
@@ -633,7 +690,7 @@ func (s *side) receive(i int, ex exchange) bool {
 		err  error
 	)
 	switch ex.Kind {
-	case exCompressed:
+	case exCompressed, exOwnHelper:
 		var f ws.Frame
 		f, err = ws.ReadFrame(s.conn)
 		if err == nil {
